@@ -21,6 +21,9 @@ pub struct PbStats {
     pub max_preemptions_seen: usize,
     /// choice sequences of all executions (only kept when requested)
     pub schedules: Vec<Vec<usize>>,
+    /// a prefix could not be replayed (the execution took a different course than the one it
+    /// was derived from); exploration of this body stopped there
+    pub diverged: Option<String>,
 }
 
 pub struct PbDfs {
@@ -70,7 +73,7 @@ impl PbDfs {
                 st.schedules.push(choices.clone());
             }
         }
-        if self.single.is_some() {
+        if self.single.is_some() || self.stats.lock().unwrap().diverged.is_some() {
             return;
         }
         // children: deviate at every point after the replayed prefix
@@ -129,10 +132,19 @@ impl Scheduler for PbDfs {
         let choice = if k < self.prefix.len() {
             let c = self.prefix[k];
             if c >= ids.len() {
-                println!("MACHINERY-FAILURE property=C20 schedule replay diverged at point {k}: choice {c} of {} enabled tasks (uncontrolled nondeterminism)", ids.len());
-                std::process::exit(2);
+                // the caller decides: a deviation from the reference observed in this body makes
+                // it a verdict about the library (hidden state), otherwise a machinery failure
+                let mut st = self.stats.lock().unwrap();
+                if st.diverged.is_none() {
+                    st.diverged = Some(format!("schedule replay diverged at point {k}: choice {c} of {} enabled tasks", ids.len()));
+                }
+                drop(st);
+                self.stack.clear();
+                self.prefix.truncate(k);
+                0
+            } else {
+                c
             }
-            c
         } else {
             0
         };
@@ -148,7 +160,7 @@ impl Scheduler for PbDfs {
 pub fn config() -> shuttle::Config {
     let mut c = shuttle::Config::new();
     // exmex keeps large SmallVecs on the stack
-    c.stack_size = 4 << 20;
+    c.stack_size = 16 << 20;
     c.failure_persistence = shuttle::FailurePersistence::None;
     c
 }
